@@ -57,3 +57,15 @@ M("c04-block-order", "C04", "sigpyproc/block.py", "        out_file.cwrite(self.
 M("c04-spec-real-only", "C04", "sigpyproc/fourierseries.py", "            outfile.cwrite(self.data.view(np.float32))", "            outfile.cwrite(np.ascontiguousarray(self.data).view(np.float32)[: 2 * (self.data.size - (self.data.size > 16))])",
   "spec writer drops the last bin of long spectra")
 M("c04-dm-dropped", "C04", H, '            "refdm": self.dm,', '            "refdm": round(self.dm, 2),', "DM rounded to 2 decimals on write")
+
+# ---- C05
+S = "sigpyproc/io/sigproc.py"
+M("c05-edit-no-length-check", "C05", S, '    if header["hdrlen"] == len(new_hdr):', '    if header["hdrlen"] <= len(new_hdr):', "longer header overwrites data bytes")
+M("c05-edit-truncates", "C05", S, '        with filepath.open("rb+") as fp:', '        with filepath.open("rb+" if key != "tstart" else "wb") as fp:', "editing tstart truncates the data section (note: dropping the source_name padding is NOT a violation - the edit is then refused with the file intact)")
+M("c05-az-za-swapped", "C05", H, '            "za_start": self.zenith.deg,\n            "az_start": self.azimuth.deg,', '            "za_start": self.azimuth.deg,\n            "az_start": self.zenith.deg,')
+M("c05-dec-rounded", "C05", H, '            "src_dej": float(self.dec.replace(":", "")),', '            "src_dej": round(float(self.dec.replace(":", "")), 1),')
+M("c05-frame-overwritten", "C05", H, '        frame = "barycentric" if header.get("barycentric") else frame\n        hdr_update = {\n            "data_type": params.data_types[header.get("data_type", 1)],\n            "telescope": sigproc.telescope_ids.inv.get(\n                header.get("telescope_id", 0),\n                "Fake",\n            ),\n            "backend": sigproc.machine_ids.inv.get(header.get("machine_id", 0), "FAKE"),\n            "source": header.get("source_name", "Fake"),\n            "dm": header.get("refdm", 0),\n            "foff": header.get("foff", 0),\n            "coord": sigproc.parse_radec(',
+  '        frame = "barycentric" if header.get("barycentric") else "topocentric"\n        hdr_update = {\n            "data_type": params.data_types[header.get("data_type", 1)],\n            "telescope": sigproc.telescope_ids.inv.get(\n                header.get("telescope_id", 0),\n                "Fake",\n            ),\n            "backend": sigproc.machine_ids.inv.get(header.get("machine_id", 0), "FAKE"),\n            "source": header.get("source_name", "Fake"),\n            "dm": header.get("refdm", 0),\n            "foff": header.get("foff", 0),\n            "coord": sigproc.parse_radec(', "original F05b", count=2)
+M("c05-machine-id-table", "C05", H, "        return sigproc.machine_ids.get(self.backend, 0)", "        return sigproc.machine_ids.get(self.backend, 0) if self.backend != 'MWAX-RTB' else 31")
+M("c05-signed-char-unsigned", "C05", S, '    "signed": "b",', '    "signed": "B",', "negative 'signed' values no longer parse/encode")
+M("c05-dec-arcsec-clipped", "C05", S, "    ami, ase = divmod(ami, 100)", "    ami, ase = divmod(ami, 100)\n    ase = min(ase, 59.9)", "declination arcseconds >= 59.9 clipped on parse (0.1 arcsec)")
